@@ -54,13 +54,15 @@ fn gen_key_card(rng: &mut Prng, i: usize, style: usize) -> Card {
     }
 }
 
-fn gen_std_program(rng: &mut Prng) -> (Module, String) {
+pub fn gen_std_program(rng: &mut Prng) -> (Module, String) {
     let mut m = Module::default();
     let mut main = vec![set("_", nil())];
     let n = match rng.below(8) {
         0 => 0,
         1 => 1,
         2 => 2,
+        // beyond the sizes at which sort implementations switch algorithms
+        3 | 4 => rng.range(21, 120) as usize,
         _ => rng.range(3, 20) as usize,
     };
     let vkind = rng.below(5);
@@ -94,8 +96,11 @@ fn gen_std_program(rng: &mut Prng) -> (Module, String) {
         // key based
         _ => vec![un("ret", bin("ne", read("k"), gen_key_card(rng, 1, kstyle)))],
     };
-    let key_kind = rng.below(5);
+    let key_kind = rng.below(6);
     let keyfn_body: Vec<Card> = match key_kind {
+        // the key is a freshly allocated object (strings order by length): the library holds it while it calls the
+        // key function again
+        5 => vec![un("ret", native("concat", vec![read("v"), strc("k")]))],
         0 => vec![un("ret", read("v"))],
         1 => vec![un("ret", bin("sub", int(0), read("v")))],
         2 => vec![un("ret", bin("mul", read("v"), read("v")))],
@@ -162,6 +167,13 @@ impl Engine for StdlibEngine {
     type Case = Case;
     fn name(&self) -> &'static str {
         "stdlib"
+    }
+    fn describe(&self, case: &Self::Case) -> serde_json::Value {
+        let mut v = serde_json::to_value(case).unwrap_or(serde_json::Value::Null);
+        if let Some(o) = v.as_object_mut() {
+            o.insert("module".into(), serde_json::Value::String(crate::pp::module(&case.module, "")));
+        }
+        v
     }
     fn gen(&mut self, rng: &mut Prng, _tier: Tier) -> Case {
         let (module, scenario) = gen_std_program(rng);
